@@ -937,10 +937,16 @@ func (f *FeaturesByID) FindRelationsByFeature(id b6.FeatureID) b6.RelationFeatur
 
 func (f *FeaturesByID) fillRelationsFromPoint(fb *featureBlock, id uint64, relations []b6.RelationFeature) []b6.RelationFeature {
 	t, ok := fb.Map.FindFirst(id)
-	if ok && t.Tag == PointTagFull {
+	if ok && (t.Tag == PointTagFull || t.Tag == PointTagReferencesOnly) {
 		var p FullPoint
 		// TODO: don't need to unmarshal everything
-		p.Unmarshal(&fb.Namespaces, t.Data)
+		if t.Tag == PointTagFull {
+			p.Unmarshal(&fb.Namespaces, t.Data)
+		} else {
+			// The point itself is stored in another index file (eg the base
+			// of an overlay), this file only records what references it.
+			p.PointReferences.Unmarshal(&fb.Namespaces, t.Data)
+		}
 		for _, r := range p.Relations {
 			for _, rm := range f.features[b6.FeatureTypeRelation] {
 				if _, ns := r.TypeAndNamespace.Split(); rm.holdsNamespace(b6.FeatureTypeRelation, ns, fb) {
